@@ -277,6 +277,9 @@ def c09(ctx):
         if op == "div" and bv == 0:
             continue
         if op == "dec":
+            # (as_decimal does one long division per digit: keep the limb model's run time bounded)
+            la = min(la, 24)
+            av &= (1 << (64 * la)) - 1
             big.append("big dec %x/%d" % (av, la))
         else:
             big.append("big %s %x/%d %x/%d" % (op, av, la, bv, lb))
